@@ -609,6 +609,28 @@ func C15(r *Run) {
 		}()
 	}
 	wg.Wait()
+	// targets that carry directives (an extension beyond the $-free quantifier): bkld diffs the
+	// EVALUATED target, so base + layer evaluates to what the target evaluates to
+	dbase := map[string]any{"a": 1, "keep": []any{1, 2}}
+	for i, extra := range []map[string]any{
+		{"$repeat": 1, "name": `$"web-{$repeat}"`},
+		{"$repeat": map[string]any{"zone": 1}, "name": `$"z{$repeat:zone}"`},
+		{"$repeat": 1, "plain": "x"},
+		{"t": `$"<{a}>"`},
+		{"c": "$merge:keep"},
+		{"e": map[string]any{"$encode": "join:,", "$value": []any{"x", "y"}}},
+		{"m": map[string]any{"$merge": "sub", "own": 1}, "sub": map[string]any{"p": 1}},
+	} {
+		target := gen.Clone(dbase).(map[string]any)
+		for k, v := range extra {
+			target[k] = v
+		}
+		d := toolDir(r)
+		res := bkldRun(d, gen.New(r.Seed+int64(i)), "base", tv.FromGo(dbase), tv.FromGo(target), "")
+		os.RemoveAll(d)
+		sessions = append(sessions, Sess{Lines: [][]byte{J(map[string]any{"ev": "Tool", "tool": "bkld", "directive": true, "base": tv.FromGo(dbase), "target": tv.FromGo(target),
+			"ok": res["ok"], "layer": res["layer"], "applied": res["applied"], "stderr": res["stderr"]})}})
+	}
 	finishEvalFamily(r, "C15", st, sessions, []string{"DiffOK (contract, on the real layer)", "EmptyLayerWhenSame", "AcceptedByBkl"},
 		"model: a base and every target one edit away (two in the deeper bound) over the property's edit catalogue (keys added / removed / changed at depth, list entries appended / removed / reordered / duplicated / inserted, a removed entry that is a partial match of a kept one, kind changes), both directions; driver: random map-rooted, null-free, $-free trees with 1-3 random edits, files in mixed formats; the REAL bkld layer is decoded independently, judged by TLC with the contract DiffOK (specification's own Merge/Eval), and applied by the real bkl")
 }
